@@ -230,6 +230,26 @@ def main(run):
                      "outdir": os.path.join(d, "out")})
         fi += 1
 
+    # a module the library generates without complaint but that is not valid Rust (an enum type literally named `type`): with
+    # --no-formatting the file is the library's text as always; with formatting the formatter cannot do its job - the command
+    # either fails without touching anything, or delivers the library's text unformatted. An empty or partial file with exit 0
+    # is neither.
+    for bi, nofmt in enumerate((True, False)):
+        d = os.path.join(root, "unfmt%d" % bi)
+        os.makedirs(os.path.join(d, "out"))
+        sp = os.path.join(d, "schema.graphql")
+        stext_u = "enum type { A B }\ntype Query { t: type n: Int }\n"
+        open(sp, "w").write(stext_u)
+        qp = os.path.join(d, "kw_enum.graphql")
+        open(qp, "w").write("query KwEnum { t n }\n")
+        target = os.path.join(d, "out", "kw_enum.rs")
+        if not nofmt:
+            open(target, "w").write("// previous output\n")
+        argv = ["generate", "--schema-path", sp, qp, "-o", os.path.join(d, "out")] + (["--no-formatting"] if nofmt else [])
+        jobs.append({"id": "unfmt%d" % bi, "kind": "success" if nofmt else "unformattable", "argv": argv, "dir": d, "schema_path": sp, "query_path": qp, "opts": {"mode": "cli", "visibility": "pub"},
+                     "nofmt": nofmt, "expected_path": target, "flags": ["-o", "unformattable-module"] + (["--no-formatting"] if nofmt else []), "doc_text": "query KwEnum { t n }\n",
+                     "schema_text": stext_u, "outdir": os.path.join(d, "out"), "stale": False, "label": "module that rustfmt cannot parse"})
+
     def snapshot(d):
         out = {}
         for base, _, files in os.walk(d):
@@ -246,7 +266,7 @@ def main(run):
     with ThreadPoolExecutor(NCPU) as ex:
         results = list(ex.map(execute, jobs))
     # library reference for the successful ones
-    reqs = [{"id": j["id"], "schema_path": j["schema_path"], "query_path": j["query_path"], "options": j["opts"], "want": ["tokens"]} for j in jobs if j["kind"] == "success"]
+    reqs = [{"id": j["id"], "schema_path": j["schema_path"], "query_path": j["query_path"], "options": j["opts"], "want": ["tokens"]} for j in jobs if j["kind"] in ("success", "unformattable")]
     lib = {r["id"]: r for r in run_gendrv(reqs)}
     for job, rc, so, se, before, after in results:
         run.evaluated()
@@ -291,6 +311,22 @@ def main(run):
                     if got != ref:
                         sym = "formatted file differs from rustfmt(header + library tokens)"
                 run.count("success-compared")
+        elif job["kind"] == "unformattable":
+            l = lib[job["id"]]
+            run.count("unformattable-module-cases")
+            exp_rel = os.path.relpath(job["expected_path"], job["dir"])
+            if l["outcome"] != "ok" or rustfmt("%s\n%s" % (HEADER, l["tokens"])) is not None:
+                run.inconclusive_case(job["id"], "the module meant to be unformattable is not (library: %s)" % l["outcome"])
+                continue
+            if rc == DEADLOCK_RC:
+                sym = "the command never terminates: %s" % se[:200].strip()
+            elif rc != 0:
+                if new or changed or gone:
+                    sym = "the formatter failed (exit %s) but files were written %s / changed %s / removed %s" % (rc, new, changed, gone)
+            else:
+                got = open(job["expected_path"], encoding="utf-8").read() if os.path.exists(job["expected_path"]) else None
+                if got != "%s\n%s" % (HEADER, l["tokens"]):
+                    sym = "exit 0 although the module cannot be formatted, and the file is not the library's text either (%s bytes: %r)" % (len(got or ""), (got or "")[:60])
         else:
             run.count("failure-cases")
             if rc == 0:
